@@ -67,6 +67,7 @@ def run(ck: Checker):
         ck.check(f'{dn}[type](' in src and 'big_endian=big_endian' in src and 'circuit.set_outputs(outputs)' in src, 'C08.REG', m, f,
                  f'{gen} dispatches on the requested mode, forwards big_endian and outputs exactly the returned bits', 'shape changed', construct=f'{gen} dispatch')
     ck.floor('C08.REG', 14)
+    karatsuba_rule(ck)
     R.check_add_only(ck, 'C08.ADD-ONLY', [MUL, SQ])
     R.check_fresh_generated(ck, 'C08.ADD-ONLY', [MUL, SQ])
     ck.floor('C08.ADD-ONLY', 14)
@@ -78,3 +79,65 @@ def run(ck: Checker):
     ck.need(n >= 2, f'only {n} placeholder-using multipliers could be analysed')
     ck.assume('NOT DECIDED: that the returned bits decode to a*b / a^2, the result widths and the Karatsuba thresholds (the core of the statement)')
     ck.assume('summation / subtraction gadgets reused by the multipliers are decided under C07.GADGET and C09.GADGET')
+
+
+def karatsuba_rule(ck: Checker, rule='C08.KARATSUBA'):
+    """Split-and-recombine multipliers: x = hi * 2^mid + lo with hi = x[mid:], lo = x[:mid].  The recombination must add
+    the middle term at shift mid and the hi*hi term at shift 2*mid (for the squarer: 2*hi*lo at mid + 1) -- a necessary
+    condition of exactness whose truth is in the shape of the code."""
+    from ..core import calls_in, call_name, single_def, deref
+    repo = ck.repo
+    ck.rule(rule, 'split-and-recombine multipliers/squarer: operands are split at `mid` into high = x[mid:] and low = x[:mid]; the low*low product enters at shift 0, the middle term at shift mid (mid + 1 for 2ab in the squarer) and the high*high product at shift 2*mid')
+    n = 0
+    for modname in (MUL, SQ):
+        m = repo.mod(modname)
+        for q, fn in m.functions.items():
+            if '.' in q:
+                continue
+            shifts = [c for c in calls_in(fn, 'add_sum_two_numbers_with_shift')]
+            slices = {norm(x) for x in __import__('ast').walk(fn) if isinstance(x, __import__('ast').Subscript) and isinstance(x.slice, __import__('ast').Slice)}
+            if len(shifts) != 2 or not any(sl.endswith('[mid:]') for sl in slices):
+                continue
+            n += 1
+            shifts.sort(key=lambda c: c.lineno)
+            s1, s2 = shifts
+            hi = {nm for nm in ('a', 'b', 'c', 'd') if (single_def(fn, nm) is not None and norm(single_def(fn, nm)).endswith('[mid:]'))}
+            lo = {nm for nm in ('a', 'b', 'c', 'd') if (single_def(fn, nm) is not None and norm(single_def(fn, nm)).endswith('[:mid]'))}
+            mid_def = single_def(fn, 'mid')
+            probs = []
+            if mid_def is None or norm(mid_def) != 'n // 2':
+                probs.append(f'split point mid = `{norm(mid_def) if mid_def is not None else None}`')
+            if modname == MUL:
+                # res = shift(mid, lo*lo, middle); final = shift(2*mid, res, hi*hi)
+                a1 = [norm(x) for x in s1.args[1:]]
+                a2 = [norm(x) for x in s2.args[1:]]
+                def prod_of(name):
+                    d = single_def(fn, name)
+                    if d is None:
+                        return None
+                    ops = set()
+                    for c in calls_in(d):
+                        ops |= {norm(x) for x in c.args[1:3]}
+                    return ops
+                lo_prod = a1[1] if len(a1) > 1 else None
+                hi_prod = a2[2] if len(a2) > 2 else None
+                if a1[0] != 'mid':
+                    probs.append(f'middle term added at shift `{a1[0]}`, not mid')
+                if a2[0] not in ('2 * mid', 'mid * 2', 'mid + mid'):
+                    probs.append(f'high product added at shift `{a2[0]}`, not 2 * mid (equal only for even widths)')
+                if lo_prod is None or not (prod_of(lo_prod) or set()) <= lo or not prod_of(lo_prod):
+                    probs.append(f'the term at shift 0 (`{lo_prod}`) is not the product of the low halves {sorted(lo)}')
+                if hi_prod is None or not (prod_of(hi_prod) or set()) <= hi or not prod_of(hi_prod):
+                    probs.append(f'the term at shift 2*mid (`{hi_prod}`) is not the product of the high halves {sorted(hi)}')
+                if len(a2) > 1 and a2[1] != norm(__import__('ast').Name('res')):
+                    probs.append(f'second recombination does not start from the first (`{a2[1]}`)')
+            else:
+                a1 = [norm(x) for x in s1.args[1:]]
+                a2 = [norm(x) for x in s2.args[1:]]
+                # a = lo, b = hi in add_square: aa (lo^2) + ab * 2^(mid+1) + bb * 2^(2 mid)
+                if a1[0] != 'mid + 1':
+                    probs.append(f'cross term 2ab added at shift `{a1[0]}`, not mid + 1')
+                if a2[0] not in ('2 * mid', 'mid * 2'):
+                    probs.append(f'high square added at shift `{a2[0]}`, not 2 * mid')
+            ck.check(not probs, rule, m, fn, f'{q}: recombination shifts match the split point', '; '.join(probs), construct=f'{q} recombination shifts')
+    ck.need(n >= 5, f'only {n} split-and-recombine functions found (5 confirmed)')
